@@ -23,6 +23,7 @@ type FuncResult struct {
 	Seconds  float64
 	Contract *Contract
 	Notes    []string
+	BareLoops int
 }
 
 type splitChoice struct {
@@ -87,6 +88,9 @@ func (e *Engine) GenFunc(key string) (vcs []*VC, res *FuncResult) {
 		vc := e.verifyCase(fn, con, c)
 		res.Obls = append(res.Obls, vc.Obls...)
 		vcs = append(vcs, vc)
+		if vc.BareLoops > res.BareLoops {
+			res.BareLoops = vc.BareLoops
+		}
 	}
 	if len(con.Splits) > 0 {
 		// residual case: everything outside the declared split ranges, verified symbolically
